@@ -28,22 +28,25 @@ import RqModel.Model.Util
 namespace RqModel.Fifo
 open RqModel.Util
 
-/-- (index, data). Data is opaque to the queue; it travels as the hex token. -/
-abbrev Item := Nat × String
+/-- (index, data). Data is opaque to the queue: the model is polymorphic in it (the driver
+uses the hex token, the C25 pipeline model a list of event groups). -/
+abbrev Item (α : Type) := Nat × α
 
-structure Q where
-  items    : List Item := []
+structure Q (α : Type) where
+  items    : List (Item α) := []
   highest  : Nat := 0
-  nextEv   : Option Item := none
+  nextEv   : Option (Item α) := none
   nextFrom : Nat := 0
 deriving Repr, DecidableEq
 
+variable {α : Type}
+
 /-- `Cursor.Seek(uint64tob n)`: first pair whose key is ≥ n -/
-def seek (items : List Item) (n : Nat) : Option Item :=
+def seek (items : List (Item α)) (n : Nat) : Option (Item α) :=
   items.find? (fun p => decide (n ≤ p.1))
 
 /-- `Bucket.Put` into the sorted map (replaces the value when the key exists) -/
-def put (items : List Item) (k : Nat) (d : String) : List Item :=
+def put (items : List (Item α)) (k : Nat) (d : α) : List (Item α) :=
   match items with
   | [] => [(k, d)]
   | (k', d') :: rest =>
@@ -52,18 +55,18 @@ def put (items : List Item) (k : Nat) (d : String) : List Item :=
     else (k', d') :: put rest k d
 
 /-- closure `loadHead` -/
-def loadHead (q : Q) : Q :=
+def loadHead (q : Q α) : Q α :=
   match q.nextEv with
   | some _ => q
   | none => { q with nextEv := seek q.items q.nextFrom }
 
 /-- `case req := <-q.enqueueChan` — always acknowledged with a nil error -/
-def enqueue (q : Q) (k : Nat) (d : String) : Q :=
+def enqueue (q : Q α) (k : Nat) (d : α) : Q α :=
   if k ≤ q.highest then q
   else loadHead { q with items := put q.items k d, highest := k }
 
 /-- `case req := <-q.deleteRangeChan` -/
-def deleteRange (q : Q) (n : Nat) : Q :=
+def deleteRange (q : Q α) (n : Nat) : Q α :=
   let deletedHead : Bool := match q.nextEv with
     | some e => decide (e.1 ≤ n)
     | none => false
@@ -74,31 +77,31 @@ def deleteRange (q : Q) (n : Nat) : Q :=
                     nextEv := if deletedHead then none else q.nextEv }
 
 /-- `case outCh <- nextEv` followed by `advanceHead`; `none` = nothing to receive -/
-def consume (q : Q) : Q × Option Item :=
+def consume (q : Q α) : Q α × Option (Item α) :=
   match q.nextEv with
   | none => (q, none)
   | some e => ({ q with nextFrom := e.1 + 1, nextEv := seek q.items (e.1 + 1) }, some e)
 
 /-- Close (or kill) + NewQueue: volatile state is rebuilt, `loadHead` runs once -/
-def reopen (q : Q) : Q :=
+def reopen (q : Q α) : Q α :=
   loadHead { items := q.items, highest := q.highest, nextEv := none, nextFrom := 0 }
 
-def firstKey (q : Q) : Nat :=
+def firstKey (q : Q α) : Nat :=
   match q.items with
   | [] => 0
   | p :: _ => p.1
 
 /-! ### operations and runs (used by the theorems and by the C25 model) -/
 
-inductive Op where
-  | enq (k : Nat) (d : String)
+inductive Op (α : Type) where
+  | enq (k : Nat) (d : α)
   | del (n : Nat)
   | consume
   | query
   | reopen
 deriving Repr, DecidableEq
 
-def stepOp (q : Q) : Op → Q × Option Item
+def stepOp (q : Q α) : Op α → Q α × Option (Item α)
   | .enq k d => (enqueue q k d, none)
   | .del n => (deleteRange q n, none)
   | .consume => consume q
@@ -106,12 +109,12 @@ def stepOp (q : Q) : Op → Q × Option Item
   | .reopen => (reopen q, none)
 
 /-- state after a sequence of operations -/
-def runQ (q : Q) : List Op → Q
+def runQ (q : Q α) : List (Op α) → Q α
   | [] => q
   | op :: rest => runQ (stepOp q op).1 rest
 
 /-- events received from `C` during a sequence of operations, in order -/
-def emitted (q : Q) : List Op → List Item
+def emitted (q : Q α) : List (Op α) → List (Item α)
   | [] => []
   | op :: rest =>
     match (stepOp q op).2 with
@@ -119,7 +122,7 @@ def emitted (q : Q) : List Op → List Item
     | none => emitted (stepOp q op).1 rest
 
 /-- a fresh queue file, just opened -/
-def empty : Q := {}
+def empty : Q α := {}
 
 /-! ### line protocol
 `reset` → `ok` (fresh, empty queue file, just opened)
@@ -130,7 +133,7 @@ def empty : Q := {}
 -/
 
 structure DState where
-  q : Q := {}
+  q : Q String := {}
 
 def idxTok (t : String) : Option Nat :=
   match t.toNat? with
@@ -142,7 +145,7 @@ def dataTok (t : String) : Option String :=
   | some _ => some t
   | none => none
 
-def queryStr (q : Q) : String :=
+def queryStr (q : Q String) : String :=
   s!"len={q.items.length} first={firstKey q} empty={boolStr q.items.isEmpty} hasnext={boolStr q.nextEv.isSome} highest={q.highest}"
 
 def step (d : DState) (line : String) : DState × String :=
